@@ -769,7 +769,11 @@ func runCodec(c *Ctx) error {
 						for _, p := range cw.wire {
 							all = append(all, p...)
 						}
-						if want := append(specEnc(pre, enc == 1), specEnc(v, enc == 1)...); !bytes.Equal(all, want) {
+						want := append(specEnc(pre, enc == 1), specEnc(v, enc == 1)...)
+						if !readRest { // the integer written after the large value
+							want = append(want, specEnc(tval{kind: "int", i: largePost}, enc == 1)...)
+						}
+						if !bytes.Equal(all, want) {
 							c.Violate(Violation{Property: "C14", Key: "C14:layout:large-strbytes", What: fmt.Sprintf("PutStringBytes of %d bytes: emitted bytes differ from the reference layout (%d bytes on the wire, %d expected)", sz, len(all), len(want)), Ops: cw.ops,
 								Expected: orc.ShowBytes(want), Observed: orc.ShowBytes(all)})
 						}
